@@ -236,10 +236,147 @@ Section Transcode.
   Theorem transcode_same_pairs q l : parse_qsl_text decode q = Ok l -> mem_n 61 q = true ->
     exists q', transcode_query decode q = Ok q' /\ parse_utf8 q' = Ok l.
   Proof.
-    intros Hp Hm. unfold transcode_query. rewrite Hm, Hp. cbn [negb]. eexists. split; [reflexivity|].
+    intros Hp Hm. unfold transcode_query. rewrite Hp, Hm. eexists. split; [reflexivity|].
     apply writeback. unfold parse_qsl_text in Hp. destruct (forallb is_octet q); [|discriminate].
     destruct (parse_pairs decode (qs_pairs (plus_to_space q))) as [l'|] eqn:E; [|discriminate].
     injection Hp as <-. exact (parse_pairs_valid _ _ E).
+  Qed.
+  (* ---- a query / body without any '=': bare names ---- *)
+  Definition names_nonempty (l : items) : bool := forallb (fun kv => nonempty (fst kv)) l.
+  Definition no_values (l : items) : items := map (fun kv => (fst kv, @nil N)) l.
+
+  Lemma utf8_encode_nonempty s : nonempty s = true -> nonempty (utf8_encode s) = true.
+  Proof.
+    destruct s as [|c s]; [discriminate|]. intros _. cbn [utf8_encode flat_map]. unfold utf8_enc_char.
+    destruct (c <? 128); [reflexivity|]. destruct (c <? 2048); [reflexivity|]. destruct (c <? 65536); reflexivity.
+  Qed.
+
+  Lemma quote_plus_nonempty b : nonempty b = true -> nonempty (quote_plus b) = true.
+  Proof.
+    destruct b as [|c b]; [discriminate|]. intros _. cbn [quote_plus flat_map]. unfold quote_plus_byte.
+    destruct (always_safe c); [reflexivity|]. destruct (c =? 32); reflexivity.
+  Qed.
+
+  Lemma cut_eq_free a : free 61 a = true -> cut_eq a = (a, []).
+  Proof.
+    induction a as [|c a IH]; intros Hf; [reflexivity|].
+    cbn [free forallb] in Hf. apply andb_true_iff in Hf as [Hc Ha]. fold (free 61 a) in Ha.
+    cbn [cut_eq]. destruct (c =? 61); [discriminate|]. rewrite (IH Ha). reflexivity.
+  Qed.
+
+  Lemma spec_decode_bare l : valid_items l = true -> names_nonempty l = true ->
+    spec_decode (bare_names l) = Some (no_values l).
+  Proof.
+    intros Hv Hn. unfold bare_names, spec_decode.
+    destruct l as [|kv0 l0]; [reflexivity|]. remember (kv0 :: l0) as l eqn:Hl.
+    assert (Hne : map (fun kv => quote_plus (utf8_encode (fst kv))) l <> []) by (subst l; discriminate).
+    clear Hl kv0 l0.
+    rewrite (split_by_join is_pair_sep 38); [|reflexivity|exact Hne|].
+    2:{ clear Hne Hn. induction l as [|kv l IH]; [reflexivity|]. cbn [valid_items forallb] in Hv.
+        apply andb_true_iff in Hv as [H1 H2]. apply andb_true_iff in H1 as [Hk _]. cbn [map forallb].
+        rewrite clean_sfree by (apply quote_clean, utf8_encode_octets; exact Hk). exact (IH H2). }
+    clear Hne. induction l as [|[k v] l IH]; [reflexivity|].
+    cbn [valid_items forallb] in Hv. apply andb_true_iff in Hv as [H1 H2]. fold (valid_items l) in H2.
+    cbn [names_nonempty forallb fst] in Hn. apply andb_true_iff in Hn as [Hk0 Hn]. fold (names_nonempty l) in Hn.
+    cbn [fst snd] in H1. apply andb_true_iff in H1 as [Hk _].
+    assert (Hq : nonempty_s (quote_plus (utf8_encode k)) = true).
+    { rewrite <- nonempty_eq. apply quote_plus_nonempty, utf8_encode_nonempty. exact Hk0. }
+    cbn [map filter fst]. fold (nonempty_s (quote_plus (utf8_encode k))). rewrite Hq.
+    cbn [map all_some no_values fst].
+    assert (Hsf : spec_field (quote_plus (utf8_encode k)) = Some (k, [])).
+    { unfold spec_field. rewrite cut_eq_free by (apply clean_free61, quote_clean, utf8_encode_octets; exact Hk).
+      rewrite (spec_component_quote k Hk). reflexivity. }
+    rewrite Hsf. rewrite (IH H2 Hn). reflexivity.
+  Qed.
+
+  Lemma bare_names_octets l : valid_items l = true -> forallb is_octet (bare_names l) = true.
+  Proof.
+    intros Hv. unfold bare_names.
+    assert (Hc : forall s, forallb clean s = true -> forallb is_octet s = true).
+    { induction s as [|c s IHs]; [reflexivity|]. cbn [forallb]. intros H. apply andb_true_iff in H as [Hc Hs].
+      rewrite (IHs Hs). unfold clean in Hc. destruct (is_octet c); [reflexivity|discriminate]. }
+    induction l as [|kv l IH]; [reflexivity|].
+    cbn [valid_items forallb] in Hv. apply andb_true_iff in Hv as [H1 H2]. fold (valid_items l) in H2.
+    apply andb_true_iff in H1 as [Hk _].
+    destruct l as [|kv2 l].
+    - cbn [map join]. exact (Hc _ (quote_clean _ (utf8_encode_octets _ Hk))).
+    - change (join [38] (map (fun kv => quote_plus (utf8_encode (fst kv))) (kv :: kv2 :: l)))
+        with (quote_plus (utf8_encode (fst kv)) ++ [38] ++ join [38] (map (fun kv => quote_plus (utf8_encode (fst kv))) (kv2 :: l))).
+      rewrite !forallb_app, (Hc _ (quote_clean _ (utf8_encode_octets _ Hk))), (IH H2). reflexivity.
+  Qed.
+
+  (* pieces of a string without '=' have no '=' *)
+  Lemma split_c_keeps_free a sep s : free a s = true -> forallb (free a) (split_c sep s) = true.
+  Proof.
+    induction s as [|c s IH]; intros Hf; [reflexivity|].
+    cbn [free forallb] in Hf. apply andb_true_iff in Hf as [Hc Hs]. fold (free a s) in Hs. specialize (IH Hs).
+    cbn [split_c]. destruct (c =? sep); [cbn [forallb free]; exact IH|].
+    destruct (split_c sep s) as [|f fs]; [cbn [forallb free]; rewrite Hc; reflexivity|].
+    cbn [forallb] in *. apply andb_true_iff in IH as [Hf1 Hfs]. rewrite Hfs, andb_true_r.
+    cbn [free forallb]. rewrite Hc. exact Hf1.
+  Qed.
+
+  Lemma qs_pairs_free a s : free a s = true -> forallb (free a) (qs_pairs s) = true.
+  Proof.
+    intros Hf. unfold qs_pairs.
+    assert (H1 := split_c_keeps_free a 38 s Hf).
+    assert (H2 : forallb (free a) (flat_map (split_c 59) (split_c 38 s)) = true).
+    { induction (split_c 38 s) as [|x xs IH]; [reflexivity|]. cbn [forallb] in H1. apply andb_true_iff in H1 as [Hx Hxs].
+      cbn [flat_map]. rewrite forallb_app, (split_c_keeps_free a 59 x Hx). exact (IH Hxs). }
+    induction (flat_map (split_c 59) (split_c 38 s)) as [|x xs IH]; [reflexivity|].
+    cbn [forallb] in H2. apply andb_true_iff in H2 as [Hx Hxs]. cbn [filter].
+    destruct (nonempty x); [cbn [forallb]; rewrite Hx|]; exact (IH Hxs).
+  Qed.
+
+  Lemma partition_free f : free 61 f = true -> partition_c 61 f = (f, false, []).
+  Proof.
+    induction f as [|c f IH]; intros Hf; [reflexivity|].
+    cbn [free forallb] in Hf. apply andb_true_iff in Hf as [Hc Hr]. fold (free 61 f) in Hr.
+    cbn [partition_c]. destruct (c =? 61); [discriminate|]. rewrite (IH Hr). reflexivity.
+  Qed.
+
+  Lemma mem_free a s : mem_n a s = false -> free a s = true.
+  Proof.
+    induction s as [|c s IH]; [reflexivity|]. cbn [mem_n free forallb]. intros H.
+    apply orb_false_iff in H as [Hc Hs]. fold (free a s). rewrite (IH Hs), andb_true_r.
+    rewrite Hc. reflexivity.
+  Qed.
+
+  (* the codec decodes the empty octet string to the empty text *)
+  Hypothesis decode_empty : decode [] = Some [].
+
+  Lemma parse_pairs_bare fs : forallb (free 61) fs = true -> forall l,
+    parse_pairs decode fs = Some l -> no_values l = l.
+  Proof.
+    induction fs as [|f fs IH]; intros Hf l H.
+    - cbn in H. injection H as <-. reflexivity.
+    - cbn [forallb] in Hf. apply andb_true_iff in Hf as [Hf0 Hfs].
+      cbn [parse_pairs] in H. unfold parse_pair in H. rewrite (partition_free f Hf0) in H.
+      destruct (decode (unquote f)) as [n|]; [|discriminate].
+      change (unquote []) with (@nil N) in H. rewrite decode_empty in H.
+      destruct (parse_pairs decode fs) as [l'|] eqn:El; [|discriminate]. cbn in H. injection H as <-.
+      cbn [no_values map fst]. fold (no_values l'). rewrite (IH Hfs l' eq_refl). reflexivity.
+  Qed.
+
+  (* request.decode(cs) on a query / body that has no '=' at all (bare names): the transcoded string parses, as
+     UTF-8, to the same pairs (names with empty values) *)
+  Theorem transcode_bare_names q l : parse_qsl_text decode q = Ok l -> mem_n 61 q = false ->
+    names_nonempty l = true ->
+    exists q', transcode_query decode q = Ok q' /\ parse_utf8 q' = Ok l.
+  Proof.
+    intros Hp Hm Hn. unfold transcode_query. rewrite Hp, Hm. eexists. split; [reflexivity|].
+    unfold parse_qsl_text in Hp. destruct (forallb is_octet q); [|discriminate].
+    destruct (parse_pairs decode (qs_pairs (plus_to_space q))) as [l'|] eqn:E; [|discriminate].
+    injection Hp as <-.
+    assert (Hv : valid_items l' = true) by exact (parse_pairs_valid _ _ E).
+    rewrite decode_spec by (apply bare_names_octets; exact Hv).
+    rewrite (spec_decode_bare l' Hv Hn). f_equal.
+    apply (parse_pairs_bare (qs_pairs (plus_to_space q))); [|exact E].
+    apply qs_pairs_free. rewrite plus_to_space_map.
+    apply mem_free in Hm. clear -Hm. induction q as [|c q IH]; [reflexivity|].
+    cbn [free forallb] in Hm. apply andb_true_iff in Hm as [Hc Hq]. fold (free 61 q) in Hq.
+    cbn [map free forallb]. fold (free 61 (map plus_space q)). rewrite (IH Hq), andb_true_r.
+    unfold plus_space. destruct (c =? 43) eqn:E43; [reflexivity|exact Hc].
   Qed.
 End Transcode.
 
@@ -255,8 +392,6 @@ Theorem transcode_latin1 q l : parse_qsl_text latin1_decode q = Ok l -> mem_n 61
   exists q', transcode_query latin1_decode q = Ok q' /\ parse_utf8 q' = Ok l.
 Proof. exact (transcode_same_pairs latin1_decode latin1_decode_text q l). Qed.
 
-Theorem transcode_keeps_non_forms decode q : mem_n 61 q = false -> transcode_query decode q = Ok q.
-Proof. intros H. unfold transcode_query. rewrite H. reflexivity. Qed.
 
 (* the ascii codec returns text, so C09_decode_charset applies to Transcoder('ascii', <any errors>) *)
 Lemma ascii_decoder_text b s : ascii_decode_strict b = Some s -> valid_text s = true.
